@@ -16,7 +16,8 @@ use plonky2::field::extension::quadratic::QuadraticExtension;
 use plonky2::field::polynomial::{PolynomialCoeffs, PolynomialValues};
 use plonky2::field::types::{Field, PrimeField64};
 use plonky2::fri::oracle::PolynomialBatch;
-use plonky2::fri::proof::{FriChallenges, FriProof};
+use plonky2::field::extension::{flatten, unflatten};
+use plonky2::fri::proof::{FriChallenges, FriInitialTreeProof, FriProof, FriQueryRound, FriQueryStep};
 use plonky2::fri::prover::fri_proof;
 use plonky2::fri::reduction_strategies::FriReductionStrategy;
 use plonky2::fri::structure::{
@@ -480,6 +481,26 @@ fn selected(params: &FriParams, indices: &[usize]) -> Selected {
     s
 }
 
+/// Value edit of a numeric leaf modulo `modulus` (u128 arithmetic); the new value is canonical and
+/// differs from the old residue. Returns false if the leaf does not exist.
+fn apply_value_edit(tree: &mut serde_json::Value, path: &Path, e: ValueEdit, modulus: u64) -> bool {
+    let Some(leaf) = get_mut(tree, path) else { return false };
+    let Some(old) = leaf.as_u64() else { return false };
+    let m = modulus as u128;
+    let oldr = old as u128 % m;
+    let mut new = match e {
+        ValueEdit::Plus1 => (oldr + 1) % m,
+        ValueEdit::Minus1 => (oldr + m - 1) % m,
+        ValueEdit::Zero => 0,
+        ValueEdit::Set(x) => x as u128 % m,
+    };
+    if new == oldr {
+        new = (oldr + 1) % m;
+    }
+    *leaf = serde_json::Value::from(new as u64);
+    true
+}
+
 enum Where {
     Pow,
     CommitCap(usize, usize),
@@ -562,7 +583,7 @@ fn common_devs<C: GenericConfig<D, F = F>>(
         let old = claimed[ii][bi][ei][co];
         let new = match dev.sel[3] >> 1 & 3 {
             0 => (old + 1) % P,
-            1 => (old + P - 1) % P,
+            1 => ((old as u128 + P as u128 - 1) % P as u128) as u64,
             _ => {
                 if dev.vals[0] % P == old {
                     (old + 1) % P
@@ -752,7 +773,7 @@ fn common_devs<C: GenericConfig<D, F = F>>(
         let class = class_of(path);
         let modulus = leaf_modulus(path, fl.keccak);
         let old = get(&tree, path).cloned().unwrap();
-        if !edit_value(&mut tree, path, e, modulus) {
+        if !apply_value_edit(&mut tree, path, e, modulus) {
             continue;
         }
         let res: Result<Proof<C>, String> = from_tree(&tree);
@@ -802,7 +823,7 @@ fn common_devs<C: GenericConfig<D, F = F>>(
             let i = if exhaustive { k } else { frac32(edits[k % edits.len()].pos.rotate_left(7), cleaves.len()) };
             let path = &cleaves[i];
             let old = get(&ctree, path).cloned().unwrap();
-            if !edit_value(&mut ctree, path, ValueEdit::Set(edits[k % edits.len()].val), modulus) {
+            if !apply_value_edit(&mut ctree, path, ValueEdit::Set(edits[k % edits.len()].val), modulus) {
                 continue;
             }
             let res: Result<Vec<Cap<C>>, String> = from_tree(&ctree);
@@ -975,6 +996,103 @@ fn combined(batches: &[FriBatchInfo<F, D>], polys: &[Vec<PolynomialCoeffs<F>>], 
         final_poly += quotient;
     }
     final_poly
+}
+
+/// The harness' own FRI prover for one combined polynomial (commit phase, grinding, query phase):
+/// the protocol of `fri_proof`, written out again so that a deviating prover can commit a chosen
+/// layer to other values, or send another final polynomial, while every Merkle path and the
+/// transcript stay valid. `layer = Some(j)`: the values committed in reduction layer `j` differ at
+/// every position from the fold of layer `j-1`; `final_coeff = Some(k)`: coefficient `k` of the
+/// final polynomial differs.
+fn adv_fri_proof<C: GenericConfig<D, F = F>>(
+    initial: &[&MerkleTree<F, Hs<C>>],
+    mut coeffs: PolynomialCoeffs<FE>,
+    mut values: PolynomialValues<FE>,
+    ch: &mut Chal<C>,
+    params: &FriParams,
+    pad: (Option<usize>, Option<usize>),
+    layer: Option<usize>,
+    final_coeff: Option<usize>,
+    delta: FE,
+) -> Proof<C> {
+    let n = values.len();
+    let cap_height = params.config.cap_height;
+    let mut trees: Vec<MerkleTree<F, Hs<C>>> = vec![];
+    let mut shift = F::MULTIPLICATIVE_GROUP_GENERATOR;
+    for (j, &a) in params.reduction_arity_bits.iter().enumerate() {
+        let arity = 1usize << a;
+        if layer == Some(j) {
+            for (i, v) in values.values.iter_mut().enumerate() {
+                *v += delta * FE::from_canonical_usize(1 + i % 3);
+            }
+        }
+        reverse_index_bits_in_place(&mut values.values);
+        let leaves: Vec<Vec<F>> = values.values.chunks(arity).map(|c| flatten::<F, D>(c)).collect();
+        let tree = MerkleTree::<F, Hs<C>>::new(leaves, cap_height);
+        ch.observe_cap(&tree.cap);
+        trees.push(tree);
+        let beta = ch.get_extension_challenge::<D>();
+        coeffs = PolynomialCoeffs::new(
+            coeffs
+                .coeffs
+                .chunks_exact(arity)
+                .map(|c| {
+                    let mut acc = FE::ZERO;
+                    for &x in c.iter().rev() {
+                        acc = acc * beta + x;
+                    }
+                    acc
+                })
+                .collect(),
+        );
+        shift = shift.exp_u64(arity as u64);
+        values = coeffs.coset_fft(shift.into());
+    }
+    if let Some(step_count) = pad.1 {
+        let zero_cap = vec![F::ZERO; (1 << cap_height) * 4];
+        for _ in params.reduction_arity_bits.len()..step_count {
+            ch.observe_elements(&zero_cap);
+            ch.get_extension_challenge::<D>();
+        }
+    }
+    let keep = coeffs.len() >> params.config.rate_bits;
+    coeffs.coeffs.truncate(keep);
+    if let Some(k) = final_coeff {
+        coeffs.coeffs[k % keep] += delta;
+    }
+    ch.observe_extension_elements::<D>(&coeffs.coeffs);
+    if let Some(len) = pad.0 {
+        for _ in coeffs.coeffs.len()..len {
+            ch.observe_extension_element::<D>(&FE::ZERO);
+        }
+    }
+    // grinding: smallest witness whose response is sufficient
+    let mut w = 0u64;
+    let pow_witness = loop {
+        let mut c2 = ch.clone();
+        c2.observe_element(fb(w));
+        if pow_sufficient(c2.get_challenge().to_canonical_u64(), params.config.proof_of_work_bits) {
+            break fb(w);
+        }
+        w += 1;
+    };
+    ch.observe_element(pow_witness);
+    let _ = ch.get_challenge();
+    let query_round_proofs = ch
+        .get_n_challenges(params.config.num_query_rounds)
+        .into_iter()
+        .map(|r| {
+            let mut x = r.to_canonical_u64() as usize % n;
+            let evals_proofs = initial.iter().map(|t| (t.get(x).to_vec(), t.prove(x))).collect();
+            let mut steps = vec![];
+            for (t, &a) in trees.iter().zip(&params.reduction_arity_bits) {
+                x >>= a;
+                steps.push(FriQueryStep { evals: unflatten::<F, D>(t.get(x)), merkle_proof: t.prove(x) });
+            }
+            FriQueryRound { initial_trees_proof: FriInitialTreeProof { evals_proofs }, steps }
+        })
+        .collect();
+    FriProof { commit_phase_merkle_caps: trees.iter().map(|t| t.cap.clone()).collect(), query_round_proofs, final_poly: coeffs, pow_witness }
 }
 
 #[derive(Clone, Debug, Serialize, Deserialize)]
@@ -1179,6 +1297,45 @@ fn single_case<C: GenericConfig<D, F = F>>(c: &Case, st: &mut Stats) -> Result<(
             st.nontrivial(&(fl.shape_hash, "b3", k));
             if v.accepted() {
                 return Err(format!("layers folded from other coefficients (monomial {} added) ACCEPTED [{}]", k, fl.describe()));
+            }
+        }
+        // (b4)/(b5) the harness' own prover: valid Merkle paths and transcript, but one deeper layer is
+        // committed to other values / another final polynomial is sent
+        {
+            let adv = |layer: Option<usize>, final_coeff: Option<usize>| -> (Proof<C>, Verdict) {
+                let (mut ch, co, va) = start();
+                let p = adv_fri_proof::<C>(&trees, co, va, &mut ch, &params, pad, layer, final_coeff, delta);
+                let c = fl.challenges(&op, &p);
+                let v = fl.verify(&op, &c, &fl.caps, &p);
+                (p, v)
+            };
+            let (p, v) = adv(None, None);
+            if p.commit_phase_merkle_caps != proof.commit_phase_merkle_caps || p.final_poly != proof.final_poly {
+                return Err(format!("harness prover disagrees with the library prover's commitments [{}]", fl.describe()));
+            }
+            if !v.accepted() {
+                return Err(format!("honest proof by the harness' own prover not accepted: {} [{}]", v.text(), fl.describe()));
+            }
+            st.label("dev:honest_harness_prover");
+            let r = fl.reductions();
+            if r >= 2 {
+                let j = 1 + frac(dev.sel[10], r - 1);
+                let (_, v) = adv(Some(j), None);
+                st.evals(1);
+                st.label("dev:b_deeper_layer_other_values");
+                st.label(&format!("b_deeper_layer:{}_of_{}", j, r));
+                st.nontrivial(&(fl.shape_hash, "b4", j));
+                if v.accepted() {
+                    return Err(format!("reduction layer {} committed to values that are not the fold of layer {} ACCEPTED [{}]", j, j - 1, fl.describe()));
+                }
+            }
+            let k = frac(dev.sel[11], params.final_poly_len());
+            let (_, v) = adv(None, Some(k));
+            st.evals(1);
+            st.label("dev:b_other_final_polynomial");
+            st.nontrivial(&(fl.shape_hash, "b5", k));
+            if v.accepted() {
+                return Err(format!("final polynomial with coefficient {} changed (transcript-consistent) ACCEPTED [{}]", k, fl.describe()));
             }
         }
     } else {
@@ -1689,9 +1846,10 @@ pub fn run(ctx: &mut Ctx) {
                 two-adic subgroup and the LDE coset; each opens a non-empty subset) x FriConfig (rate 1-3, cap 0-3, Fixed | ConstantArityBits | \
                 MinSize repaired to the library's preconditions, pow 0-8, 1-12 queries, hiding, optional transcript padding) x Poseidon|Keccak; \
                 the batched variant has 1-3 distinct degrees in 1-2 BatchFriOracles. Claimed openings come from the harness' own Horner rule over u128 arithmetic. \
-                Per case: honest run (must be accepted) and deviations (a) one opening value changed (transcript-consistent and with fixed challenges), \
+                Per case: honest run (must be accepted, and the values it commits to at the queried points must equal the reference combination) and deviations (a) one opening value changed (transcript-consistent and with fixed challenges; also a missing value / missing batch in the claimed openings), \
                 (b) first layer committed to other values at all / a few positions (the latter asserted iff a query's coset holds a changed position) and \
-                layers folded from other coefficients, (c) committed functions of degree >= 2^d with true openings, folded honestly (generated high coefficients, \
+                layers folded from other coefficients, a deeper layer committed to other values / another final polynomial by the harness' own prover \
+                (valid Merkle paths and transcript), (c) committed functions of degree >= 2^d with true openings, folded honestly (generated high coefficients, \
                 or a high part crafted to vanish on whole preimage cosets: asserted iff the harness' reference fold says some query sees a non-zero truncated part), \
                 (d) proof of work: response boundary sweep under fixed challenges, generated witnesses through the prover knob, replaced witness, \
                 (e) value edit of elements of the FriProof serde tree and of the initial caps and shape edits of its lists, honest FriChallenges re-used. \
